@@ -35,6 +35,7 @@ their lock map (`Goat/Model/MutexTasks.lean`, tied to `Runner.runGo` by `Goat/Ti
 -/
 import Goat.Proofs.MutexMain
 import Goat.Proofs.MutexParties
+import Goat.Model.MutexNames
 import Goat.Proofs.MutexTasksMain
 
 namespace Goat.C15
@@ -433,5 +434,28 @@ theorem fail_monitor_accepts_iff (waits : List (List Nat)) (fails : List Bool) (
 
 example : MutexTasks.failMonitor [[], [0]] [true, false] [⟨0, [(7, true)], 1, 4⟩, ⟨1, [], 5, 6⟩] = some (1, 0) := by decide
 example : MutexTasks.failMonitor [[], [0]] [false, false] [⟨0, [(7, true)], 1, 4⟩, ⟨1, [], 5, 6⟩] = none := by decide
+
+/-! ### 9. Which name a resource of `pip:run` is locked under (`Goat/Model/MutexNames.lean`) -/
+
+/-- A `pip:run --rlock=… --wlock=…` in the body of a task names its resources in the LOCK namespace that task
+was created with: the name of the parent task — and of any chain of parents, the TASK namespace — plays no
+part.  Two nested tasks under different parents of one lock namespace therefore lock the same names (and
+sections 1–8 make them exclude each other); `@name` is global by `parseLocks`. -/
+theorem nested_lock_names_ignore_task_names (p : Namespaces) (parent rlock wlock : Bytes) :
+    nestedLocks p parent rlock wlock = parseLocks p.lock rlock wlock ∧
+    ∀ inner, (taskNamespaces (taskNamespaces p parent) inner).lock = p.lock := by
+  have h : ∀ q : Namespaces, ∀ n, (taskNamespaces q n).lock = q.lock := by
+    intro q n
+    simp only [taskNamespaces, subNamespaces, subName]
+    by_cases hq : q.lock = [] <;> simp [hq]
+  exact ⟨by simp [nestedLocks, runLocks, h], fun inner => by rw [h, h]⟩
+
+-- `--wlock=res` nested in task `first` and in task `second` (no lock namespace): both lock `res`; in lock
+-- namespace `ns` both lock `nsres`; `@g` stays `@g`; the task namespaces differ
+-- (bytes: first = [102, 105, 114, 115, 116], second = [115, 101, 99, 111, 110, 100], res = [114, 101, 115], ns = [110, 115], @g = [64, 103])
+example : nestedLocks ⟨[], []⟩ [102, 105, 114, 115, 116] [] [114, 101, 115] = some [([114, 101, 115], true)] ∧
+    nestedLocks ⟨[], []⟩ [115, 101, 99, 111, 110, 100] [] [114, 101, 115] = some [([114, 101, 115], true)] ∧
+    nestedLocks ⟨[], [110, 115]⟩ [102, 105, 114, 115, 116] [64, 103] [114, 101, 115] = some [([64, 103], false), ([110, 115, 114, 101, 115], true)] ∧
+    (taskNamespaces ⟨[], []⟩ [102, 105, 114, 115, 116]).task ≠ (taskNamespaces ⟨[], []⟩ [115, 101, 99, 111, 110, 100]).task := by decide
 
 end Goat.C15
